@@ -65,7 +65,7 @@ CFG = {
     "technique": "Coq proof (invariant over a small-step lock semantics, verified Wing-Gong checker) + generated lock "
                  "facts (T) + vm_compute judgement of recorded concurrent histories (H) + race detector sampling",
     "design_ref": "DESIGN.md §4 C13",
-    "n_quick": 600, "n_thorough": 20000, "search_n": 2400,
+    "n_quick": 500, "n_thorough": 20000, "search_n": 2400,
     "rule": "windows of one epoch = one Instance (3 fixed + random graph shapes: 4-6 parameters of types int/float64/"
             "string/bool; 2-4 text producers listing 2-5 parameters through shared and two-level join nodes, some "
             "parameters listed twice through different paths) and 1-8 client goroutines; per window <= 12 calls "
